@@ -69,8 +69,11 @@ class Sched:
             raise Blocked()
 
     def enabled(self):
+        """threads that can take a step: parked at a scheduling point, and - if that point is the acquisition of a
+        cooperative lock - the lock is free (a thread waiting for a held lock is not enabled; if nobody is enabled
+        while threads are still parked, the execution is deadlocked and ends there)"""
         with self.cv:
-            return sorted(self.parked)
+            return sorted(t for t, op in self.parked.items() if not (isinstance(op, CoopLockPoint) and not op.lock.free_for(t)))
 
     def step(self, tid):
         """Grant `tid` one step; return when it is parked again or finished."""
@@ -88,3 +91,111 @@ class Sched:
         with self.cv:
             self.free_run = True
             self.cv.notify_all()
+
+
+class CoopLockPoint(str):
+    """scheduling-point label of a lock acquisition (a str, so that code comparing labels keeps working)"""
+    def __new__(cls, lock):
+        o = super().__new__(cls, "lock")
+        o.lock = lock
+        return o
+
+
+class CoopLock:
+    """Drop-in for threading.Lock / RLock inside the code under test.  The code may protect its shared state with
+    locks (a legitimate design): under a controller that runs one thread at a time, a thread blocking on a real lock
+    held by a parked thread would stall the schedule.  Here the ACQUISITION is a scheduling point, enabled only
+    while the lock is free, so every interleaving of critical sections is still explored and a thread is never
+    preempted into a real wait.  Outside controlled threads (main thread, tear-down) it behaves like the real lock."""
+
+    def __init__(self, sched, reentrant=False):
+        self._s = sched
+        self._real = threading.Lock()
+        self._re = reentrant
+        self._owner = None
+        self._count = 0
+
+    def free_for(self, tid):
+        return not self._real.locked() or (self._re and self._owner == ("t", tid))
+
+    def _me(self):
+        t = self._s.tid()
+        return ("t", t) if t is not None else ("x", threading.get_ident())
+
+    def acquire(self, blocking=True, timeout=-1):
+        me = self._me()
+        if self._re and self._owner == me:
+            self._count += 1
+            return True
+        if self._s.tid() is not None and not self._s.free_run:
+            self._s.point(CoopLockPoint(self))
+            if not self._s.free_run:
+                got = self._real.acquire(False)
+                if not got:
+                    if not blocking:
+                        return False
+                    got = self._real.acquire(True, timeout)      # cannot happen under the controller; plain wait otherwise
+            else:
+                got = self._real.acquire(blocking, timeout)
+        else:
+            got = self._real.acquire(blocking, timeout)
+        if got:
+            self._owner, self._count = me, 1
+        return got
+
+    def release(self):
+        if self._re:
+            if self._owner != self._me():
+                raise RuntimeError("cannot release un-acquired lock")
+            self._count -= 1
+            if self._count:
+                return
+        self._owner = None
+        self._real.release()
+
+    def locked(self):
+        return self._real.locked()
+
+    def __enter__(self):
+        self.acquire()
+        return self
+
+    def __exit__(self, *a):
+        self.release()
+        return False
+
+
+class ThreadingProxy:
+    """stands in for the `threading` module inside the code under test: Lock / RLock are cooperative, the rest is real"""
+
+    def __init__(self, sched, overrides=None):
+        self._sched = sched
+        self._over = dict(overrides or {})
+
+    def Lock(self):
+        return CoopLock(self._sched)
+
+    def RLock(self):
+        return CoopLock(self._sched, reentrant=True)
+
+    def __getattr__(self, name):
+        if name in self.__dict__.get("_over", {}):
+            return self._over[name]
+        return getattr(threading, name)
+
+
+def install_coop_locks(module, sched):
+    """Make locks created by `module` (via `threading.Lock()` or an imported `Lock`) cooperative.  Returns an undo()."""
+    saved = []
+    for name, reent in (("Lock", False), ("RLock", True)):
+        if hasattr(module, name) and getattr(module, name) in (threading.Lock, threading.RLock):
+            saved.append((name, getattr(module, name)))
+            setattr(module, name, (lambda r: (lambda: CoopLock(sched, reentrant=r)))(reent))
+    if getattr(module, "threading", None) is threading:
+        saved.append(("threading", threading))
+        module.threading = ThreadingProxy(sched)
+
+    def undo():
+        for name, v in saved:
+            setattr(module, name, v)
+    return undo
